@@ -338,9 +338,9 @@ def walk_function(fn_node: ast.AST, include_nested: bool = False) -> Iterator[as
     while stack:
         n = stack.pop()
         yield n
+        if not include_nested and isinstance(n, (ast.FunctionDef, ast.AsyncFunctionDef, ast.ClassDef, ast.Lambda)):
+            continue  # the nested definition itself is a statement of this body; its inside is another scope
         for c in reversed(list(ast.iter_child_nodes(n))):
-            if not include_nested and isinstance(c, (ast.FunctionDef, ast.AsyncFunctionDef, ast.ClassDef, ast.Lambda)):
-                continue
             stack.append(c)
     # default expressions and decorators belong to the enclosing scope: not visited here
 
